@@ -1335,6 +1335,18 @@ func dropShadowed(in *Input) Input {
 	return out
 }
 
+// clusterFieldCause: is an otherwise unexplained disagreement explained by reading the trust domain
+// (or the partition) as the unescaped regex it is spliced in as?  Diagnostic reference only.
+func clusterFieldCause(in *Input, sorted structs.Intentions, p *Presented, q *Req, mode, got bool) string {
+	if b, _ := reference(in, sorted, p, q, mode, &blur{name: exactName, td: true}); b == got {
+		return "unquoted-trust-domain"
+	}
+	if b, _ := reference(in, sorted, p, q, mode, &blur{name: exactName, ap: true}); b == got {
+		return "unquoted-partition"
+	}
+	return ""
+}
+
 func causeOf(want, gotRed, gotLen, gotBoth bool) string {
 	switch {
 	case gotRed == want:
@@ -1378,7 +1390,11 @@ func diagnose(in *Input, p *Presented, q *Req) (dis bool, got, want bool, cause,
 			rRed = rr
 		}
 	}
-	return true, got, want, causeOf(want, evalRBAC(rRed, c, q, false), evalRBAC(r, c, q, true), evalRBAC(rRed, c, q, true)), ""
+	cause = causeOf(want, evalRBAC(rRed, c, q, false), evalRBAC(r, c, q, true), evalRBAC(rRed, c, q, true))
+	if cause == "" {
+		cause = clusterFieldCause(in, sortedIxns(in), p, q, xfccMode(in), got)
+	}
+	return true, got, want, cause, ""
 }
 
 func disagree(in *Input, p *Presented, q *Req) (dis bool, got, want bool, problem string) {
@@ -1546,6 +1562,10 @@ func classify(in *Input, p *Presented, q *Req, got, want bool, cause, problem st
 		sig["kind"], sig["cause"] = "inverted-header-missing", "inverted-value-matcher-on-absent-header-ignored-by-envoy"
 		sig["header_absent"] = invertedValueMatcherOnAbsentHeader(in, q)
 		return sig
+	case "unquoted-trust-domain", "unquoted-partition":
+		sig["kind"], sig["cause"] = "regex-unescaped-cluster-field", cause
+		sig["metachar_in"] = strings.TrimPrefix(cause, "unquoted-")
+		return sig
 	case "shadow+inverted-header":
 		sig["kind"], sig["cause"] = "precedence-removal+inverted-header-missing", "needs-both-counterfactuals"
 		sig["header_absent"] = invertedValueMatcherOnAbsentHeader(in, q)
@@ -1563,14 +1583,6 @@ func classify(in *Input, p *Presented, q *Req, got, want bool, cause, problem st
 	if b, _ := reference(in, sorted, p, q, mode, &blur{name: regexName}); hasMeta && b == got {
 		sig["kind"], sig["metachar_in"] = "regex-unescaped-name", "source-name"
 		sig["effect"] = map[bool]string{true: "caller-matched-by-pattern-of-other-name", false: "own-name-not-matched"}[callerIsNearMiss(in, p)]
-		return sig
-	}
-	if b, _ := reference(in, sorted, p, q, mode, &blur{name: exactName, td: true}); b == got {
-		sig["kind"], sig["metachar_in"] = "regex-unescaped-cluster-field", "trust-domain"
-		return sig
-	}
-	if b, _ := reference(in, sorted, p, q, mode, &blur{name: exactName, ap: true}); b == got {
-		sig["kind"], sig["metachar_in"] = "regex-unescaped-cluster-field", "partition"
 		return sig
 	}
 	sig["kind"] = "decision-mismatch"
@@ -1736,6 +1748,9 @@ func oracle(in *Input, r *envoy_rbac_v3.RBAC, wantCoq bool) (findings []Finding,
 				st.Disagreements++
 				cause := causeOf(want, verdictFromTabs(rRed, tabsRed, ci, qi, false),
 					verdictFromTabs(r, tabs, ci, qi, true), verdictFromTabs(rRed, tabsRed, ci, qi, true))
+				if cause == "" {
+					cause = clusterFieldCause(in, sorted, &conns[ci], &reqs[qi], mode, got)
+				}
 				st.ByCause[cause]++
 				report(&conns[ci], &reqs[qi], cause, "")
 			}
@@ -2364,8 +2379,8 @@ func main() {
 		g.store(1200)
 		g.oddCluster(120)
 	} else {
-		g.exhaustive(2, 4, 29)
-		g.random(1200, 8, names)
+		g.exhaustive(2, 4, 37)
+		g.random(1200, 10, names)
 		g.random(200, 4, append(names, "a|b", "c++", "x(y", "web.v1"))
 		g.malformed(120)
 		g.store(90)
